@@ -1,9 +1,12 @@
 """C18 — application events arrive once each and in causal order.
 Same closed-system model as C14 (CLIENT); the oracle looks at what BOTH API styles hand to the
 application: the delegated client's callbacks and the Deferred client's get_*() results."""
+import json
+import random
 import time
 
 from ..core import Result
+from .. import core
 from .. import mailbox_corr as mc
 from . import c14
 from . import c18_observer
@@ -12,13 +15,23 @@ from ..worlds.mailbox import World
 ID = "C18"
 MODEL = "CLIENT"
 PROP_MODULES = ["WV.Props.ClientSkel", "WV.Props.C18", "WV.Props.C18obs"]
+# translation validation of the control machines' method bodies against WV.Client (tools/extract.py::extract_pyir ->
+# WV/Gen/PyIR.lean; agents/deepPyIR2_integration.md): part of the check as soon as the modules are installed
+import os as _os
+PROP_MODULES += ["WV.Props." + _m for _m in ("PyIR_Client", "PyIR_Client_Boss", "PyIR_Client_Glue")
+                 if _os.path.exists(_os.path.join(_os.path.dirname(_os.path.abspath(__file__)), "..", "..", "lean", "WV",
+                                                  "Props", _m + ".lean"))]
 NATIVE_DECIDE_MODULES = ["WV.Proofs.ClientCert"]
 TRUSTED = c14.TRUSTED + ["Deferred chaining of Twisted (observers' callbacks run through the real EventualQueue)"]
 RULE = ("(a) guided random schedules as for C14 with per-step comparison against the Lean model; (b) two-client runs "
         "(client 0 delegated, client 1 Deferred) with get_*() issued before/after each event and after closed; the "
         "oracle checks once-each, the causal order code<key<verifier<{versions,messages}<closed on both API styles, "
         "versions-before-messages when the server delivered in submission order, and that every get_* after closed "
-        "fails; distinct = distinct canonical traces")
+        "fails; (c) the error path: server frames the client cannot process (handler raises -> Boss.error; frames that fail "
+        "before the try; unknown types) injected at every moment of a session - before the code, lonely, established, "
+        "while closing (application close and self-close), after closed, repeatedly - scripted and in random walks, on the "
+        "real client in both API styles, the delegated one compared step by step with the Lean model `C18E`, both judged by "
+        "the same oracle; distinct = distinct canonical traces")
 
 ORDER = {"code": 0, "key": 1, "verifier": 2, "versions": 3, "message": 3, "closed": 5}
 
@@ -60,6 +73,7 @@ def cases(rng, tier):
         out.append(dict(kind="pair", seed=rng.randrange(10**9), fifo=True, match=True, nmsg=rng.randrange(1, 4),
                         drops=rng.random() < 0.2, slow=rng.choice([0.005, 0.03, 0.2]), eager=True))
     out += c18_observer.obs_cases(rng, tier)
+    out += err_cases(rng, tier)
     return out
 
 
@@ -180,6 +194,390 @@ def run_pair(case):
         return Result([], [], viol, tags, True, info=dict(trace=trace))
 
 
+# ---------------------------------------------------------------------------
+# the error path: server frames the client cannot process
+#
+# RendezvousConnector.ws_message parses the frame and looks up `_response_handle_<type>` BEFORE its try; only the
+# handler call is inside, and its `except Exception as e` tells the Boss (`Boss.error(e)`) and re-raises.  C18's
+# statement is about every server ("at most once each ... closed last"), so such a frame may arrive at any moment of a
+# session: before the code, lonely, established, while the wormhole is closing (release/close on the wire), after it has
+# closed, and repeatedly.  What each frame is (`fault`) follows from the wire protocol alone:
+#   handler  a known type whose required field is missing / has the wrong JSON type / is not hex
+#   raw      not UTF-8, not JSON, not an object, no string `type`
+#   unknown  a type the client has no handler for (logged and ignored)
+
+def _j(d):
+    return json.dumps(d).encode("utf-8")
+
+
+FRAMES = {
+    "message-bare": (_j({"type": "message"}), "handler"),
+    "message-no-body": (_j({"type": "message", "side": "0123456789", "phase": "0"}), "handler"),
+    "message-no-side": (_j({"type": "message", "phase": "0", "body": "00"}), "handler"),
+    "message-phase-int": (_j({"type": "message", "side": "0123456789", "phase": 0, "body": "00"}), "handler"),
+    "message-body-nonhex": (_j({"type": "message", "side": "0123456789", "phase": "0", "body": "zz"}), "handler"),
+    "message-body-odd": (_j({"type": "message", "side": "0123456789", "phase": "0", "body": "abc"}), "handler"),
+    "message-body-int": (_j({"type": "message", "side": "0123456789", "phase": "0", "body": 7}), "handler"),
+    "message-body-nonascii": (_j({"type": "message", "side": "0123456789", "phase": "0", "body": "éé"}), "handler"),
+    "claimed-bare": (_j({"type": "claimed"}), "handler"),
+    "claimed-mailbox-int": (_j({"type": "claimed", "mailbox": 5}), "handler"),
+    "claimed-mailbox-null": (_j({"type": "claimed", "mailbox": None}), "handler"),
+    "allocated-bare": (_j({"type": "allocated"}), "handler"),
+    "allocated-nameplate-int": (_j({"type": "allocated", "nameplate": 4}), "handler"),
+    "nameplates-bare": (_j({"type": "nameplates"}), "handler"),
+    "nameplates-not-list": (_j({"type": "nameplates", "nameplates": {"id": "4"}}), "handler"),
+    "nameplates-item-not-dict": (_j({"type": "nameplates", "nameplates": ["4"]}), "handler"),
+    "nameplates-item-no-id": (_j({"type": "nameplates", "nameplates": [{"id": "4"}, {}]}), "handler"),
+    "nameplates-id-int": (_j({"type": "nameplates", "nameplates": [{"id": 4}]}), "handler"),
+    "error-bare": (_j({"type": "error"}), "handler"),
+    "error-no-orig": (_j({"type": "error", "error": "refused"}), "handler"),
+    "welcome-bare": (_j({"type": "welcome"}), "handler"),
+    "welcome-int": (_j({"type": "welcome", "welcome": 5}), "handler"),
+    "raw-not-utf8": (b"\xff\xfe\x00", "raw"),
+    "raw-not-json": (b"hello", "raw"),
+    "raw-empty": (b"", "raw"),
+    "raw-list": (b"[]", "raw"),
+    "raw-string": (b'"message"', "raw"),
+    "raw-no-type": (_j({"side": "0123456789", "phase": "0", "body": "00"}), "raw"),
+    "raw-type-int": (_j({"type": 5}), "raw"),
+    "raw-type-null": (_j({"type": None}), "raw"),
+    "unknown-type": (_j({"type": "pong", "pong": 1}), "unknown"),
+    "unknown-empty-type": (_j({"type": ""}), "unknown"),
+    "unknown-near-miss": (_j({"type": "Message", "side": "x", "phase": "0", "body": "00"}), "unknown"),
+}
+FAULT_OF = {payload: fault for payload, fault in FRAMES.values()}
+LINE_OF = {"handler": "badframe", "raw": "rawframe", "unknown": "unkframe"}
+HANDLER_FRAMES = sorted(n for n, (_, f) in FRAMES.items() if f == "handler")
+OTHER_FRAMES = sorted(n for n, (_, f) in FRAMES.items() if f != "handler")
+
+_HAVE_MODEL = None
+
+
+def have_model():
+    """the driver model `C18E` (lean/WV/Model/C18.lean; one dispatch line in the shared lean/Driver.lean).  Without that
+    line the family still runs on the real code with its oracle, only the step-by-step comparison is skipped (and tagged)."""
+    global _HAVE_MODEL
+    if _HAVE_MODEL is None:
+        try:
+            _HAVE_MODEL = core.run_driver("C18E", ["reset"]) == ["ok"]
+        except Exception:
+            _HAVE_MODEL = False
+    return _HAVE_MODEL
+
+
+class ErrObserver(mc.Observer):
+    """the mailbox-world observer plus the three kinds of unusable frame; for a Deferred-mode subject the API calls go
+    through the World (which hangs the recording callbacks on the Deferreds)"""
+
+    def classify_frame(self, payload):
+        f = FAULT_OF.get(bytes(payload))
+        if f is not None:
+            self.faults.append((f, self.c.states()["B"]))
+            return LINE_OF[f]
+        return super().classify_frame(payload)
+
+    def record(self, line, outcome):
+        if line in ("badframe", "rawframe") and outcome.startswith("internal:"):
+            outcome = "internal:frame"        # the frame's own KeyError / AssertionError / TypeError / binascii.Error …
+        super().record(line, outcome)
+
+    get_asked = 0
+    closes = 0
+
+    def _api(self, op):
+        if not self.c.delegated and op[2] in ("close", "get_message"):
+            if op[2] == "get_message":
+                self.get_asked += 1
+            elif self.closes:
+                # a further close(): its own Deferred, recorded apart from the first one
+                self.closes += 1
+                try:
+                    self.c.w.close().addBoth(self.c._fired, "close2")
+                    return "ok"
+                except Exception as e:
+                    self.c.api_errors.append(("close", type(e).__name__))
+                    return type(e).__name__
+            else:
+                self.closes = 1
+            return self.W.api(self.ci, op[2], *op[3:])
+        return super()._api(op)
+
+
+def err_do(W, ob, op):
+    """one op of an error-path case (replayable): the World's ops plus
+       ["frame", c, name, at_head]   the server says FRAMES[name] to client c (next, or after what is already queued)"""
+    if op[0] == "frame":
+        cl = W.clients[op[1]]
+        if cl.conn is None:
+            return "noop"
+        payload = FRAMES[op[2]][0]
+        if op[3]:
+            cl.conn.s2c.appendleft(payload)
+        else:
+            cl.conn.s2c.append(payload)
+        return "ok"
+    return ob.do(op)
+
+
+CODE = "7-crossover-clockwork"
+
+
+def _stranger_pake():
+    from spake2 import SPAKE2_Symmetric
+    el = SPAKE2_Symmetric(b"9-some-stranger", idSymmetric=b"x", entropy_f=lambda n: b"\x07" * n).start()
+    return json.dumps({"pake_v1": el.hex()}).encode("utf-8").hex()
+
+
+STRANGER_PAKE = _stranger_pake()
+
+
+def err_scripts():
+    """moments of a session at which the frame arrives: (name, ops before, ops after); `F` marks the frame"""
+    F = "F"
+    both = [["api", 0, "set_code", CODE], ["api", 1, "set_code", CODE], ["open", 0], ["open", 1], ["pump"]]
+    talk = [["api", 0, "send", "00"], ["api", 1, "send", "1111"], ["pump"]]
+    # close() has written release/close; the server has not seen them yet, its answers come after the frame
+    out = {
+        "before-code": [["open", 0], ["pump"], F, ["pump"], ["api", 0, "set_code", CODE], ["pump"]],
+        "lonely": [["api", 0, "set_code", CODE], ["open", 0], ["pump"], F, ["pump"]],
+        "lonely-then-peer": [["api", 0, "set_code", CODE], ["open", 0], ["pump"], F, ["pump"], ["api", 1, "set_code", CODE], ["open", 1],
+                             ["pump"], ["api", 1, "send", "1111"], ["pump"]],
+        "established": both + talk + [F, ["pump"], ["api", 1, "send", "2222"], ["pump"]],
+        "closing": both + talk + [["api", 0, "close"], F, ["pump"], ["svc_stopped", 0], ["pump"]],
+        "closing-answer-first": both + talk + [["api", 0, "close"], ["c2s", 0], ["frame", 0, None, False], ["pump"],
+                                               ["svc_stopped", 0], ["pump"]],
+        "closing-lonely": [["api", 0, "set_code", CODE], ["open", 0], ["pump"], ["api", 0, "close"], F, ["pump"], ["svc_stopped", 0], ["pump"]],
+        "closing-before-code": [["open", 0], ["pump"], ["api", 0, "close"], F, ["pump"], ["svc_stopped", 0], ["pump"]],
+        "self-closing-scared": [["api", 0, "set_code", CODE], ["open", 0], ["pump"], ["inject", 0, "7h1rd51de", "pake", STRANGER_PAKE], ["s2c", 0],
+                                ["inject", 0, "7h1rd51de", "version", "00" * 60], ["s2c", 0], F, ["pump"], ["svc_stopped", 0], ["pump"]],
+        "self-closing-server-error": [["api", 0, "set_code", CODE], ["open", 0], ["pump"],
+                                      ["inject_frame", 0, {"type": "error", "error": "refused", "orig": {"type": "claim"}}, True], ["s2c", 0],
+                                      F, ["pump"], ["svc_stopped", 0], ["pump"]],
+        "closing-across-reconnect": both + talk + [["api", 0, "close"], ["drop", 0], ["open", 0], ["s2c", 0], F, ["pump"], ["svc_stopped", 0], ["pump"]],
+        "twice": both + talk + [F, F, ["pump"], F, ["pump"]],
+        "twice-while-closing": both + talk + [["api", 0, "close"], F, F, ["pump"], ["svc_stopped", 0], ["pump"]],
+        "after-error-close()": both + talk + [F, ["pump"], ["api", 0, "close"], ["pump"], F, ["pump"], ["api", 0, "close"], ["pump"]],
+        "after-error-server-error": both + [F, ["pump"], ["inject_frame", 0, {"type": "error", "error": "refused", "orig": {"type": "add"}}, False],
+                                            ["pump"], F, ["pump"]],
+        "after-error-reconnect": both + talk + [F, ["pump"], ["drop", 0], ["open", 0], ["pump"], F, ["pump"], ["api", 1, "send", "3333"], ["pump"]],
+    }
+    return out
+
+
+def expand_script(ops, frame):
+    out = []
+    for op in ops:
+        if op == "F":
+            out.append(["frame", 0, frame, True])
+            out.append(["s2c", 0])
+        elif op[0] == "frame" and op[2] is None:
+            out.append(["frame", 0, frame, op[3]])
+        else:
+            out.append(op)
+    return out
+
+
+def err_cases(rng, tier):
+    out = []
+    scripts = err_scripts()
+    names = sorted(scripts)
+    k = 0
+    for mi, moment in enumerate(names):
+        if tier == "quick":
+            # every moment with three handler frames and one frame of the other kinds, in both API styles (rotating
+            # through the corpus: every frame of the corpus is used by some moment)
+            frames = [HANDLER_FRAMES[(3 * mi + j) % len(HANDLER_FRAMES)] for j in range(3)] + [OTHER_FRAMES[mi % len(OTHER_FRAMES)]]
+        else:
+            frames = HANDLER_FRAMES + OTHER_FRAMES
+        plan = [(fr, style) for fr in frames for style in ("delegate", "deferred")]
+        for fr, style in plan:
+            out.append(dict(kind="err", style=style, moment=moment, frame=fr, ops=expand_script(scripts[moment], fr), seed=4000 + k))
+            k += 1
+    for _ in range(80 if tier == "quick" else 1200):
+        out.append(dict(kind="err", style=rng.choice(["delegate", "deferred"]), seed=rng.randrange(10**9),
+                        walk=dict(n=rng.choice([40, 80, 140]), when=rng.choice(["anytime", "closing", "closing", "after-error"]),
+                                  match=rng.random() < 0.8, drops=rng.random() < 0.3, nbad=rng.choice([1, 1, 2, 3]))))
+    return out
+
+
+def err_walk(rng, W, ob, emit, walk):
+    """random schedule of two clients in which the server says something unusable to client 0 at pre-drawn moments"""
+    c0, c1 = W.clients
+    n = walk["n"]
+    emit(["open", 0]); emit(["open", 1])
+    emit(["api", 0, "set_code", CODE])
+    emit(["api", 1, "set_code", CODE if walk["match"] else "7-wrong-words"])
+    t_close = rng.randrange(n // 4, n)
+    closed = [False, False]
+    sent = [0, 0]
+    nbad = walk["nbad"]
+    when = walk["when"]
+    t_bad = (sorted(rng.randrange(2, n) for _ in range(nbad)) if when == "anytime" else
+             [rng.randrange(2, n)] if when == "after-error" else [])
+    armed = 0            # bad frames to deliver in the next steps (relative moments)
+    did_bad = 0
+    for step in range(n):
+        choices = []
+        for ci in (0, 1):
+            c = W.clients[ci]
+            if c.conn is None and c.svc.started:
+                choices += [["open", ci]] * 3
+            if c.conn is not None:
+                if c.conn.c2s:
+                    choices += [["c2s", ci]] * 3
+                if mc.readable(c):
+                    choices += [["s2c", ci]] * 3
+                if walk["drops"] and rng.random() < 0.04:
+                    choices += [["drop", ci]]
+            if W.pending_turn(ci):
+                choices += [["turn", ci]] * 2
+            if c.svc.stopping is not None and not c.svc.stopping.called:
+                choices.append(["svc_stopped", ci])
+            if sent[ci] < 3 and not closed[ci]:
+                choices.append(["api", ci, "send", "%02x%02x" % (ci, sent[ci])])
+        if not c0.delegated and rng.random() < 0.15:
+            choices.append(["api", 0, "get_message"])
+        if step >= t_close and not closed[0]:
+            choices += [["api", 0, "close"]] * 4
+        if step > n * 0.7 and not closed[1] and rng.random() < 0.1:
+            choices.append(["api", 1, "close"])
+        # the unusable frame: at its drawn moment (`anytime`, and the first one of `after-error`), in the steps right after
+        # close() (`closing`), in the steps after the first one (`after-error`)
+        can = (c0.conn is not None and not (c0.svc.stopping is not None and not c0.svc.stopping.called)
+               and not getattr(c0.conn, "closing", False))
+        due = bool(t_bad and step >= t_bad[0]) or (armed > 0 and rng.random() < 0.4)
+        if due and can:
+            name = rng.choice(HANDLER_FRAMES) if rng.random() < 0.8 else rng.choice(OTHER_FRAMES)
+            at_head = rng.random() < 0.6
+            emit(["frame", 0, name, at_head])
+            if at_head:
+                emit(["s2c", 0])
+            did_bad += 1
+            if t_bad and step >= t_bad[0]:
+                t_bad.pop(0)
+                if when == "after-error":
+                    armed += nbad
+            else:
+                armed -= 1
+            continue
+        if not choices:
+            break
+        op = rng.choice(choices)
+        emit(op)
+        if op[0] == "api" and op[2] == "send":
+            sent[op[1]] += 1
+        if op[0] == "api" and op[2] == "close":
+            closed[op[1]] = True
+            if op[1] == 0 and when == "closing":
+                armed += nbad
+    emit(["finish"])
+
+
+def run_err(case):
+    """the error path on the real client; style `delegate`: compared step by step with the Lean model C18E"""
+    rng = random.Random(case["seed"])
+    deleg = case["style"] == "delegate"
+    ops = []
+    with World(seed=case["seed"]) as W:
+        mc.patch_world_internal_names(W)
+        a = W.add_client(delegated=deleg)
+        W.add_client(delegated=True)
+        ob = ErrObserver(W, 0)
+        ob.faults = []
+
+        def emit(op):
+            ops.append(op)
+            return err_do(W, ob, op)
+
+        if "ops" in case:
+            for op in case["ops"]:
+                emit(op)
+        else:
+            err_walk(rng, W, ob, emit, case["walk"])
+        viol = []
+        if deleg:
+            viol += check_events(a.events, "delegated", False)
+        else:
+            viol += deferred_epilogue(W, ob, a)
+        # the honest peer (delegated) next to a client whose session broke off
+        viol += check_events(W.clients[1].events, "peer", False)
+        tags = ["err:" + case["style"], "err:moment:" + case.get("moment", "walk:" + case.get("walk", {}).get("when", "?"))]
+        for f, bstate in ob.faults:
+            tags.append("err:frame:%s@%s" % (f, bstate))
+        # observation, not a clause of C18 (outside C14's conformant-server quantifier): at HEAD the Terminator's late
+        # `closed` is refused by a Boss that an error has already moved to S4_closed
+        if any("NoTransition(Boss.S4_closed.closed)" in str(ent) for ent in a.internal):
+            tags.append("err:late-closed-refused")
+        trace = ["%s" % n for n, v in a.events]
+        info = dict(trace=[case["style"]] + trace, ops=ops)
+        if deleg and have_model():
+            info["model"] = "C18E"
+            return Result(ob.lines, ob.expect, viol, tags, bool(ob.faults), info=info)
+        if deleg:
+            tags.append("err:model-driver-missing")
+        return Result([], [], viol, tags, bool(ob.faults), info=info)
+
+
+def shrink_err(case):
+    """a random walk becomes its recorded op list (same World seed, so it replays exactly); op lists lose one op at a time"""
+    if "walk" in case:
+        ops = run_err(case).info["ops"]
+        yield dict(kind="err", style=case["style"], seed=case["seed"], moment="walk:" + case["walk"]["when"], ops=ops)
+        return
+    ops = case["ops"]
+    for i in range(len(ops) - 1, -1, -1):
+        c = dict(case)
+        c["ops"] = ops[:i] + ops[i + 1:]
+        yield c
+
+
+def deferred_epilogue(W, ob, b):
+    """Deferred-mode subject: what the get_*() / close() Deferreds did.  Clauses (all from C18's statement):
+    the successful notifications come once each and in causal order; after the close() Deferred has fired nothing
+    succeeds any more; once the wormhole has closed, every outstanding and future get_*() fails instead of hanging."""
+    viol = []
+    if not ob.closes:
+        ob.do(["api", 0, "close"])
+    ob.do(["finish"])
+    W.settle()
+    n0 = len(b.events)
+    idx = [i for i, (n, v) in enumerate(b.events) if n in ("closed", "closed!")]
+    if idx:
+        for n, v in b.events[idx[0] + 1:]:
+            if not n.endswith("!") and n not in ("closed", "close2"):
+                viol.append(("get-after-closed-succeeds:" + n, f"{n} was delivered after the close() Deferred had fired: {[x for x, _ in b.events]}"))
+        if len(idx) > 1:
+            viol.append(("event-twice:closed", f"the one close() Deferred fired {len(idx)} times"))
+        # every further close() reports what the first one reported
+        later = [(n, v) for n, v in b.events if n in ("close2", "close2!")]
+        if len(later) < ob.closes - 1:
+            viol.append(("second-close-hangs", f"{ob.closes - 1} further close() after the first, {len(later)} fired"))
+        for n, v in later:
+            if (n.endswith("!"), v) != (b.events[idx[0]][0].endswith("!"), b.events[idx[0]][1]):
+                viol.append(("second-close-verdict:" + str(v), f"first close() reported {b.events[idx[0]]}, a later close() reported {(n, v)}"))
+        for name, meth in [("welcome", b.w.get_welcome), ("code", b.w.get_code), ("key", b.w.get_unverified_key),
+                           ("verifier", b.w.get_verifier), ("versions", b.w.get_versions), ("message", b.w.get_message)]:
+            meth().addBoth(b._fired, "late-" + name)
+        W.settle()
+        pending = {"late-" + x for x in ("welcome", "code", "key", "verifier", "versions", "message")}
+        for n, v in b.events[n0:]:
+            if n.startswith("late-") and not n.endswith("!"):
+                viol.append(("get-after-closed-succeeds:" + n[5:], f"get_{n[5:]}() after closed returned {str(v)[:40]}"))
+            pending.discard(n.rstrip("!"))
+        if pending:
+            viol.append(("get-after-closed-hangs", f"get_* after closed never fired: {sorted(pending)}"))
+        # the five get_*() taken at creation and every get_message() asked for during the run have fired by now
+        fired = {n.rstrip("!") for n, v in b.events[:n0]}
+        for name in ("welcome", "code", "key", "verifier", "versions"):
+            if name not in fired:
+                viol.append(("get-outstanding-hangs:" + name, f"get_{name}() taken before closed never fired: {[x for x, _ in b.events]}"))
+        got = sum(1 for n, v in b.events[:n0] if n.rstrip("!") == "message")
+        if got < ob.get_asked:
+            viol.append(("get-outstanding-hangs:message", f"{ob.get_asked} get_message() were asked for before closed, {got} fired"))
+    viol += check_events([(n, v) for n, v in b.events[:n0] if not n.startswith("close2")], "deferred", False)
+    return viol
+
+
 def trace_oracle(summary):
     viol = check_events(summary["events"], "client0", False)
     for ent in summary["internal"]:
@@ -200,6 +598,8 @@ def run_case(case):
         return mc.run_trace_case(case, trace_oracle_fifo if case.get("fifo") else trace_oracle)
     if case.get("kind") == "obs":
         return c18_observer.run_obs_case(case)
+    if case.get("kind") == "err":
+        return run_err(case)
     if case.get("kind") == "pair":
         r = run_pair(case)
         r.expect = []
@@ -224,6 +624,9 @@ def shrink(case):
         return
     if case.get("kind") == "obs":
         yield from c18_observer.shrink_obs(case)
+        return
+    if case.get("kind") == "err":
+        yield from shrink_err(case)
         return
     if case.get("kind") == "pair":
         if case["nmsg"] > 0:
